@@ -185,7 +185,8 @@ def grid_case(ctx, idx, rng):
             kd2 = 10**9
         check_eigh(ctx, A, v, m, kd2)
         check_expm(ctx, A, v, dt, m, kd2, hermitian=True)
-    if idx % 6 == 1 and n >= 2:
+    _w = np.linalg.eigvalsh((A + A.conj().T) / 2) if (idx % 6 == 1 and n >= 2) else None
+    if _w is not None and float(_w[-1] - _w[0]) > 1e-6 * max(1.0, float(np.abs(_w).max())):       # (a multiple of the identity has no spread to rescale)
         # strongly DECAYING (or growing) real part of the step on a semi-definite spectrum: exp(dt A) v is perfectly finite (all factors in (0, 1]), but
         # |Re dt| x spectral spread is 720 .. 1500 -- factoring out the wrong end of the spectrum overflows
         w_, Q_ = np.linalg.eigh((A + A.conj().T) / 2)
